@@ -212,7 +212,8 @@ def extra(tier, rng, workdir):
     # afterwards, and after a restart, the store is what a fault-free revert leaves
     rf_cases, rf_twins = [], []
     for tip, saved, t in ((2300, 2300, 1800), (2300, 2100, 1800), (3100, 3100, 1500), (1200, 1200, 700))[:3 if tier == "quick" else 4]:
-        for j in range(1, 7 if tier == "quick" else 9):
+        for j in ([1, 2, 3, -1, -2, -3] if tier == "quick" else [1, 2, 3, 4, 5, -1, -2, -3, -4]):
+            # j > 0: the j-th storage operation (the first are reads); j < 0: the |j|-th write / delete of the revert
             pre = [["addn", 1, saved], ["save"]] + ([["addn", saved + 1, tip - saved]] if tip > saved else [])
             post = [["lastheight"], ["lasthash"], ["files"], ["hash", t], ["load"], ["lastheight"], ["lasthash"], ["addn", 9001, 300],
                     ["save"], ["files"], ["load"], ["lastheight"], ["lasthash"], ["hash", t + 200], ["hash", (t // 1000 + 1) * 1000]]
